@@ -221,7 +221,7 @@ def check(ctx):
     cstat = ef.nested.get("compute_correction_statistics")
     ctx.require(cstat is not None, f"{ef.where()}: compute_correction_statistics not found")
     cs = ctx.builder().summarize(cstat)
-    filt = cs.env.get("df_filtered")
+    filt = next((t_ for _, _, t_, _ in cs.assigns if t_[0] == "sub" and t_[1] == DF and t_[2][0] in ("bin", "cmp", "call")), None)
     okf = False
     detail = "filter not recognised"
     if filt is not None and filt[0] == "sub" and filt[1] == DF and filt[2][0] == "bin" and filt[2][1] == "&":
@@ -241,7 +241,7 @@ def check(ctx):
     es = ctx.builder().summarize(ef)
     dterm = None
     for pc, name, t, n in es.assigns:
-        if name == "versioned_estimates":
+        if True:
             for x in ir.walk(t):
                 if x[0] == "setitem" and x[2] == ("const", "dist_to_observed"):
                     dterm = x[3]
